@@ -739,40 +739,7 @@ func genCase15(c *Chooser) C15Case {
 		switch c.Pick(3, 1, 1, 2) {
 		case 3:
 			// hand-written native diff: merge hunks whose paths overlap
-			// (an object is set, then a member inside it), deletions, and a
-			// strict hunk first
-			var sb strings.Builder
-			if c.Chance(1, 3) {
-				sb.WriteString("@ [\"s\"]\n- 1\n+ 2\n")
-			}
-			keys := []string{"a", "b", "c"}
-			sub := []string{"x", "y", "z"}
-			for j := 0; j < c.Range(2, 6); j++ {
-				k := keys[c.Int(3)]
-				sb.WriteString("^ {\"Merge\":true}\n")
-				// a path of 1-4 keys below k, and a value that is a scalar, an
-				// array or an object nested 1-3 levels: later hunks reach into
-				// what earlier hunks added, at any depth
-				path := fmt.Sprintf("%q", k)
-				for d := 0; d < c.Int(4); d++ {
-					path += fmt.Sprintf(",%q", sub[c.Int(3)])
-				}
-				switch c.Int(5) {
-				case 0:
-					fmt.Fprintf(&sb, "@ [%s]\n+\n", path)
-				case 1:
-					fmt.Fprintf(&sb, "@ [%s]\n+ %d\n", path, j)
-				case 2:
-					fmt.Fprintf(&sb, "@ [%s]\n+ [1,2,{\"z\":%d}]\n", path, j)
-				default:
-					val := fmt.Sprintf("%d", j)
-					for d := 0; d < c.Range(1, 3); d++ {
-						val = fmt.Sprintf("{%q:%s,\"w\":%d}", sub[c.Int(3)], val, d)
-					}
-					fmt.Fprintf(&sb, "@ [%s]\n+ %s\n", path, val)
-				}
-			}
-			cs.Texts = append(cs.Texts, TextSrc{Kind: "jd", Text: sb.String()})
+			cs.Texts = append(cs.Texts, TextSrc{Kind: "jd", Text: handWrittenMerge(c)})
 		case 0:
 			// a multi-key nested merge patch (nulls delete)
 			gm := g
@@ -1005,4 +972,47 @@ func observe(x any) string {
 		return fingerprint(x)
 	}
 	return b.String()
+}
+
+// handWrittenMerge writes a native diff the way a person assembling merge
+// hunks might: a strict hunk first (sometimes), then merge hunks over a small
+// set of keys whose paths overlap at any depth (an object is set, then a member
+// inside it), deletions, and the same few values again and again.
+func handWrittenMerge(c *Chooser) string {
+	var sb strings.Builder
+	if c.Chance(1, 3) {
+		sb.WriteString("@ [\"s\"]\n- 1\n+ 2\n")
+	}
+	keys := []string{"a", "b", "c"}
+	sub := []string{"x", "y", "z"}
+	sticky := c.Chance(1, 3) // metadata is inherited by the following hunks
+	for j := 0; j < c.Range(2, 6); j++ {
+		k := keys[c.Int(3)]
+		if !sticky || j == 0 {
+			sb.WriteString("^ {\"Merge\":true}\n")
+		}
+		path := fmt.Sprintf("%q", k)
+		for d := 0; d < c.Int(4); d++ {
+			path += fmt.Sprintf(",%q", sub[c.Int(3)])
+		}
+		switch c.Int(7) {
+		case 0:
+			fmt.Fprintf(&sb, "@ [%s]\n+\n", path)
+		case 1:
+			fmt.Fprintf(&sb, "@ [%s]\n+ %d\n", path, j)
+		case 2:
+			fmt.Fprintf(&sb, "@ [%s]\n+ [1,2,{\"z\":%d}]\n", path, j)
+		case 3:
+			fmt.Fprintf(&sb, "@ [%s]\n+ {}\n", path)
+		case 4:
+			fmt.Fprintf(&sb, "@ [%s]\n+ []\n", path)
+		default:
+			val := fmt.Sprintf("%d", j)
+			for d := 0; d < c.Range(1, 3); d++ {
+				val = fmt.Sprintf("{%q:%s,\"w\":%d}", sub[c.Int(3)], val, d)
+			}
+			fmt.Fprintf(&sb, "@ [%s]\n+ %s\n", path, val)
+		}
+	}
+	return sb.String()
 }
